@@ -297,8 +297,7 @@ def run_shard(ctx):
             ctx.ev()
             try:
                 run_case(case, ctx)
-                if ctx.evaluations % 1009 == 0:
-                    ctx.sample(case)
+                ctx.maybe_sample(case, 1009)
             except Abandon:
                 pass
         return t
